@@ -134,3 +134,13 @@ CLAIMED.update({
             "Machine-checked: C13_silence_class, C13_history, C13_startup_unknown_class, C13_phc_unreadable_is_not_a_measurement, C13_phc_added_iff_refid_matches.",
             POLL_NOTE, "DESIGN.md section 6, C13"),
 })
+
+CLAIMED.update({
+    "C15": ("Coq proof over the message-passing model (invariant over every schedule incl. faults at any point; main's broadcast is enabled as soon as a worker is gone; strictly "
+            "decreasing measure after the broadcast) + real thread_manager::run with a fault injected at every fault point of both workers and a real start-up failure",
+            "Machine-checked: C15_invariant (every reachable state), C15_main_reacts, C15_join_progress (every live worker can move and every move decreases mu; when both are gone the "
+            "join completes), C15_faults_only_help, C15_returned_means_all_gone. PARTIAL: the theorems are about the abstraction (FIFO mailboxes, receivers vanish with their thread, "
+            "death notice from Context::drop); the real-time bound is observed (worst case recorded in the evidence), not proved.",
+            "Trusted: Coq kernel; std mpsc / Drop / thread::panicking semantics as modelled; OS scheduling fairness; cfg-gated fault points; unshare -m namespace.",
+            "DESIGN.md section 6, C15"),
+})
